@@ -497,4 +497,200 @@ theorem propagate_sound (b : Block) (hs : SafeBlock b) (ρ : Env) (w : World) :
     simp [initSt, number_map]
   exact whileLoop_inv S b.params b.stmts _ _ _ h0 hs ρ w
 
+/-! ## `dead_code_elimination` -/
+
+theorem drop_sound (x : Nat) (e : Expr) (loc : Int) :
+    ∀ (l : Ins), increasing (l.map (·.1)) = true → Ins.at l loc = some (.assign (some x) e) →
+      deadAfter x (stmtsAfter l loc) = true →
+      ∀ (ρ : Env) (w : World),
+        run S ρ w ((Ins.setAt l loc (.assign none e)).map (·.2)) = run S ρ w (l.map (·.2))
+  | [], _, h, _ => by simp [Ins.at] at h
+  | (j, t) :: l, hinc, hloc, hd => by
+    obtain ⟨hall, hinc'⟩ := inc_cons j (l.map (·.1)) (by simpa using hinc)
+    rw [at_cons] at hloc
+    rw [setAt_cons]
+    by_cases hj : j = loc
+    · simp only [hj, if_true] at hloc ⊢
+      have ht : t = .assign (some x) e := by simpa using hloc
+      subst ht
+      have hgt : ∀ s ∈ l, loc < s.1 := fun s hs => hj ▸ hall s.1 (List.mem_map_of_mem (f := (·.1)) hs)
+      rw [setAt_noop l loc _ (fun s hs => by have := hgt s hs; omega)]
+      have h2 : stmtsAfter ((j, Stmt.assign (some x) e) :: l) loc = l.map (·.2) := by
+        simp only [stmtsAfter, List.filter_cons, hj, Int.lt_irrefl, decide_false, Bool.false_eq_true, if_false]
+        rw [filter_all l _ (fun s hs => by simpa using hgt s hs)]
+      rw [h2] at hd
+      intro ρ w
+      simp only [List.map_cons, run]
+      cases e.eval S ρ w with
+      | throw w => rfl
+      | ok v w1 =>
+        exact dead_run S x (l.map (·.2)) ρ (ρ.set x v) w1 (fun y hy => by simp [Env.set, hy]) hd
+    · simp only [hj, if_false] at hloc ⊢
+      have hjl : j < loc := by
+        have hm := at_mem l loc _ hloc
+        exact hall loc (by simpa using List.mem_map_of_mem (f := (·.1)) hm)
+      have h2 : stmtsAfter ((j, t) :: l) loc = stmtsAfter l loc := by
+        have : ¬ loc < j := by omega
+        simp [stmtsAfter, this]
+      rw [h2] at hd
+      simp only [List.map_cons]
+      exact run_cons_congr S t _ _ (drop_sound x e loc l hinc' hloc hd)
+
+theorem safeDel_sound (ins : Ins) (loc : Int) (h : safeDel ins loc = true) :
+    ∀ (ρ : Env) (w : World), run S ρ w ((Ins.removeAt ins loc).map (·.2)) = run S ρ w (ins.map (·.2)) := by
+  unfold safeDel at h
+  split at h
+  · next x e hat =>
+    simp only [Bool.and_eq_true] at h
+    exact remove_sound S x e h.1.1 loc ins h.2 hat h.1.2
+  · exact absurd h (by simp)
+
+theorem setAt_same (l : Ins) (loc : Int) (s : Stmt) (h : Ins.at l loc = some s) (hinc : increasing (l.map (·.1)) = true) :
+    Ins.setAt l loc s = l := by
+  induction l with
+  | nil => rfl
+  | cons hd tl ih =>
+    obtain ⟨j, t⟩ := hd
+    obtain ⟨hall, hinc'⟩ := inc_cons j (tl.map (·.1)) (by simpa using hinc)
+    rw [at_cons] at h
+    rw [setAt_cons]
+    by_cases hj : j = loc
+    · simp only [hj, if_true] at h ⊢
+      have : t = s := by simpa using h
+      subst this
+      rw [setAt_noop tl loc _ (fun e he => by
+        have := hall e.1 (List.mem_map_of_mem (f := (·.1)) he)
+        omega)]
+    · simp only [hj, if_false] at h ⊢
+      rw [ih h hinc']
+
+theorem safeDrop_sound (ins : Ins) (loc : Int) (d : Stmt) (h : safeDrop ins loc d = true) :
+    ∀ (ρ : Env) (w : World), run S ρ w ((Ins.setAt ins loc d.dropLhs).map (·.2)) = run S ρ w (ins.map (·.2)) := by
+  unfold safeDrop at h
+  simp only [Bool.and_eq_true, beq_iff_eq] at h
+  obtain ⟨⟨hd, hinc⟩, h⟩ := h
+  cases d with
+  | ret k a => simp at h
+  | assign lo e =>
+    cases lo with
+    | some x => exact drop_sound S x e loc ins hinc hd h
+    | none =>
+      intro ρ w
+      simp only [Stmt.dropLhs]
+      rw [setAt_same ins loc _ hd hinc]
+
+/-- as long as every deletion passed its check, the live list computes what `orig` computes -/
+def DInv (orig : List Stmt) (st : DSt) : Prop :=
+  st.ok = true → ∀ (ρ : Env) (w : World), run S ρ w (st.ins.map (·.2)) = run S ρ w orig
+
+theorem kill_inv (orig : List Stmt) (rec : Int → List Nat → DSt → DSt)
+    (hrec : ∀ loc used st, DInv S orig st → DInv S orig (rec loc used st))
+    (loc : Int) (d : Stmt) (st : DSt) (h : DInv S orig st) :
+    DInv S orig (st.kill rec loc d) := by
+  unfold DSt.kill
+  split
+  · intro hok ρ w
+    simp only [Bool.and_eq_true] at hok
+    simp only
+    rw [safeDrop_sound S st.ins loc d hok.2 ρ w]
+    exact h hok.1 ρ w
+  · split
+    · exact h
+    · apply hrec
+      intro hok ρ w
+      simp only [Bool.and_eq_true] at hok
+      simp only
+      rw [safeDel_sound S st.ins loc hok.2 ρ w]
+      exact h hok.1 ρ w
+
+theorem updateChain_inv (orig : List Stmt) : ∀ (fuel : Nat) (loc : Int) (used : List Nat) (st : DSt),
+    DInv S orig st → DInv S orig (updateChain fuel loc used st)
+  | 0, _, _, _, h => h
+  | fuel + 1, loc, used, st, h => by
+    unfold updateChain
+    -- both folds keep the invariant
+    have inner : ∀ (var : Nat) (ds : List Int) (st : DSt), DInv S orig st →
+        DInv S orig (ds.foldl (fun st defLoc =>
+          let du := st.du.set (var, defLoc) (rem1 (st.du.get (var, defLoc)) loc)
+          let udl := rem1 (st.ud.get (var, loc)) defLoc
+          let ud := if udl.isEmpty then st.ud.pop (var, loc) else st.ud.set (var, loc) udl
+          let st := { st with ud := ud, du := du }
+          if defLoc ≥ 0 && (st.du.get (var, defLoc)).isEmpty then
+            let st := { st with du := st.du.pop (var, defLoc) }
+            match st.ins.at defLoc with
+            | none => st
+            | some d => st.kill (updateChain fuel) defLoc d
+          else st) st) := by
+      intro var ds
+      induction ds with
+      | nil => intro st h; exact h
+      | cons dl ds ih =>
+        intro st h
+        simp only [List.foldl_cons]
+        apply ih
+        split
+        · split
+          · exact h
+          · next d hd =>
+            exact kill_inv S orig (updateChain fuel) (fun loc used st h => updateChain_inv orig fuel loc used st h) dl d _ h
+        · exact h
+    have outer : ∀ (vars : List Nat) (st : DSt), DInv S orig st →
+        DInv S orig (vars.foldl (fun st var =>
+          (st.ud.get (var, loc)).foldl (fun st defLoc =>
+            let du := st.du.set (var, defLoc) (rem1 (st.du.get (var, defLoc)) loc)
+            let udl := rem1 (st.ud.get (var, loc)) defLoc
+            let ud := if udl.isEmpty then st.ud.pop (var, loc) else st.ud.set (var, loc) udl
+            let st := { st with ud := ud, du := du }
+            if defLoc ≥ 0 && (st.du.get (var, defLoc)).isEmpty then
+              let st := { st with du := st.du.pop (var, defLoc) }
+              match st.ins.at defLoc with
+              | none => st
+              | some d => st.kill (updateChain fuel) defLoc d
+            else st) st) st) := by
+      intro vars
+      induction vars with
+      | nil => intro st h; exact h
+      | cons v vs ih =>
+        intro st h
+        simp only [List.foldl_cons]
+        exact ih _ (inner v _ st h)
+    exact outer _ st h
+
+theorem dceLoop_inv (orig : List Stmt) (n : Nat) : ∀ (fuel k : Nat) (st : DSt),
+    DInv S orig st → DInv S orig (dceLoop n fuel k st)
+  | 0, _, _, h => h
+  | fuel + 1, k, st, h => by
+    unfold dceLoop
+    split
+    · exact h
+    · next i s _ =>
+      apply dceLoop_inv orig n fuel (k + 1)
+      split
+      · exact h
+      · split
+        · exact h
+        · exact kill_inv S orig (updateChain n) (fun loc used st h => updateChain_inv S orig n loc used st h) i s st h
+
+/-- `dce_sound`: when every deletion `dead_code_elimination` makes on `b` passes its check (a pure definition, or the
+    defined register of a call, that is dead), the block it leaves has the outcome of `b` -/
+theorem dce_sound (b : Block) (hs : (dcePass b).ok = true) (ρ : Env) (w : World) :
+    run S ρ w (dce b).stmts = run S ρ w b.stmts := by
+  have h0 : DInv S b.stmts (DSt.mk (number b.stmts) (buildUD b.params (number b.stmts))
+      (buildDU (buildUD b.params (number b.stmts))) true) := by
+    intro _ ρ w
+    simp [number_map]
+  exact dceLoop_inv S b.stmts _ _ _ _ h0 hs ρ w
+
+/-- the two passes in the order of the pipeline -/
+theorem dce_propagate_sound (b : Block) (hs : (dceThenPropagate b).ok = true) (ρ : Env) (w : World) :
+    run S ρ w ((dceThenPropagate b).ins.map (·.2)) = run S ρ w b.stmts := by
+  have h0 : DInv S b.stmts (dcePass b) := by
+    have h0 : DInv S b.stmts (DSt.mk (number b.stmts) (buildUD b.params (number b.stmts))
+        (buildDU (buildUD b.params (number b.stmts))) true) := by
+      intro _ ρ w
+      simp [number_map]
+    exact dceLoop_inv S b.stmts _ _ _ _ h0
+  have h1 : Inv S b.stmts (St.mk (dcePass b).ins (dcePass b).ud (dcePass b).du true (dcePass b).ok) := fun hok => h0 hok
+  exact whileLoop_inv S b.params b.stmts _ _ _ h1 hs ρ w
+
 end AgVerif.Propagate
